@@ -299,6 +299,7 @@ class Gen:
         self.r = rng
         self.n = 0
         self.features = set()
+        self.lib_templates = []      # (name, [output signals]) of templates of the included file that may be instantiated
 
     def fresh(self, base):
         self.n += 1
@@ -486,6 +487,41 @@ class Gen:
             stmt("cassign", {c}, var(c), ".", "in", "[", num(1), "]", "<==", var(b), target=c),
             stmt("cassign", {o}, var(o), "<==", var(c), ".", "out", target=o)]
 
+    def lib_out_template(self):
+        """A template for the INCLUDED file with two output signals, built from token trees so that every construct's
+        byte range in that file is recorded."""
+        name = self.fresh("XOut")
+        o1, o2 = self.fresh("xo"), self.fresh("xo")
+        decls = [stmt("decl", {"in"}, "signal", "input", "in", sig=True),
+                 stmt("decl", {o1}, "signal", "output", o1, sig=True),
+                 stmt("decl", {o2}, "signal", "output", o2, sig=True)]
+        body = [stmt("cassign", {o1}, var(o1), "<==", infix("*", var("in"), var("in")), target=o1),
+                stmt("cassign", {o2}, var(o2), "<==", infix("+", var("in"), num(1)), target=o2)]
+        self.lib_templates.append((name, [o1, o2]))
+        return S("def", {name}, ["template", name, "(", S("params", set()), ")"], "{", decls, body, "}", params=[])
+
+    def idiom_lib_component(self, env):
+        """A finding of THIS file about a construct of ANOTHER file: a template of the included file is
+        instantiated here and (some of) its output signals are never read (CS0018 names the signal declared there)."""
+        r = self.r
+        a, b = env["in"]
+        name, outs = r.choice(self.lib_templates)
+        c = self.fresh("xc")
+        cl = call(name)
+        self.features.add("cross-file-component")
+        form = r.choice(["init", "assign"])
+        if form == "init":
+            sts = [stmt("decl", {c}, "component", c, "=", cl)]
+        else:
+            sts = [stmt("decl", {c}, "component", c), stmt("vassign", {c}, c, "=", cl, target=c)]
+        sts.append(stmt("cassign", {c}, var(c), ".", "in", "<==", var(a), target=c))
+        decls = []
+        if r.random() < 0.4:
+            o = self.fresh("xr")
+            decls.append(stmt("decl", {o}, "signal", "output", o, sig=True))
+            sts.append(stmt("cassign", {o}, var(o), "<==", var(c), ".", outs[0], target=o))
+        return decls, sts
+
     def idiom_tuple(self, env):
         r = self.r
         a, b = env["in"]
@@ -603,6 +639,10 @@ class Gen:
         if r.random() < 0.05:
             d, b2 = self.idiom_undefined(env)
             body += b2
+        if self.lib_templates and r.random() < 0.6:
+            d, b2 = self.idiom_lib_component(env)
+            decls += d
+            body.insert(r.randrange(len(body) + 1), b2)
         ptoks = []
         for i, p in enumerate(params):
             if i:
@@ -763,7 +803,11 @@ def gen_project(rng, idx):
     with_lib = rng.random() < 0.25
     if with_lib:
         lib_style = rng.choice(STYLES)
-        tree, _ = gen_file_tree(g, rng, rng.choice([1, 2]), with_pragma=rng.random() < 0.8, with_main=False)
+        lib_pragma = rng.random() < 0.8
+        tree, _ = gen_file_tree(g, rng, rng.choice([1, 2]), with_pragma=lib_pragma, with_main=False)
+        if rng.random() < 0.8:
+            # a template whose output signals are left unread by the including file (cross-file finding)
+            tree.insert(rng.randrange(1 if lib_pragma else 0, len(tree) + 1), g.lib_out_template())
         text, sp, st = render(tree, rng, lib_style, prefix=EXOTIC["bom"] if exotic == "bom0_lib" else "")
         files["lib.circom"] = text
         spans["lib.circom"] = sp
